@@ -116,6 +116,10 @@ def random_case(rng, tier):
             early.append(len(children) - 1)
             items_b.append((f'e{len(children) - 1}', {'child_ref': len(children) - 1}))
     program = make_program(items_a, via, items_b)
+    if rng.random() < 0.2:
+        for name in ('A', 'B'):
+            if program['steps'][name]['ret']:
+                program['steps'][name]['ret']['cls'] = 'ordered'
     for child_index in early:
         program['steps']['A']['effects'].insert(0, {'e': 'launchonly', 'child': child_index})
     program['children'] = children
